@@ -1080,4 +1080,113 @@ theorem dlLoopJ_ok_present {cfg : Cfg} {hash : Bytes → Digest} {reg : Registry
         cases h
         exact absurd rfl (hne s')
 
+/-! ## histories: what a pull does to the manifests, and what pruning spares -/
+
+theorem lookupM_insertM_other (n name : Name) (v : MFile) (l : List (Name × MFile)) (h : n ≠ name) :
+    lookupM n (insertM name v l) = lookupM n l := by
+  induction l with
+  | nil => simp [insertM, lookupM, Ne.symm h]
+  | cons hd t ih =>
+    obtain ⟨k, w⟩ := hd
+    by_cases hk : k = name
+    · subst hk
+      simp [insertM, lookupM, Ne.symm h]
+    · by_cases hn : k = n
+      · subst hn
+        simp [insertM, lookupM, h]
+      · simp [insertM, lookupM, hk, hn, ih]
+
+/-- pruning never removes a blob that some readable manifest still names -/
+theorem removeBlobs_used (used : List DRef) (ks : List DRef) (d : Digest) (hu : DRef.ok d ∈ used) :
+    ∀ (b : Digest → Option Bytes), removeBlobs used ks b d = b d := by
+  induction ks with
+  | nil => intro b; rfl
+  | cons k ks ih =>
+    intro b
+    cases k with
+    | empty => simpa [removeBlobs] using ih b
+    | bad => simpa [removeBlobs] using ih b
+    | ok x =>
+      simp only [removeBlobs]
+      split
+      · exact ih b
+      · rename_i hx
+        have hne : d ≠ x := by
+          intro e; subst e; exact hx hu
+        rw [ih _, upd_other _ _ _ _ hne]
+
+theorem usedRefs_mem (n : Name) (m : Manifest) (mans : List (Name × MFile))
+    (h : lookupM n mans = some (.readable m)) : ∀ r ∈ layerRefs m, r ∈ usedRefs mans := by
+  induction mans with
+  | nil => simp [lookupM] at h
+  | cons hd t ih =>
+    obtain ⟨k, w⟩ := hd
+    intro r hr
+    by_cases hk : k = n
+    · simp only [lookupM, hk, if_true] at h
+      cases h
+      simp [usedRefs, hr]
+    · simp only [lookupM, hk, if_false] at h
+      have := ih h r hr
+      cases w with
+      | readable m' => simp [usedRefs, this]
+      | corrupt => simpa [usedRefs] using this
+
+theorem all_digest_mem_layerRefs (m : Manifest) (l : Layer) (hl : l ∈ m.all) : l.digest ∈ layerRefs m := by
+  unfold Manifest.all at hl
+  unfold layerRefs
+  rcases List.mem_append.1 hl with h | h
+  · exact List.mem_append.2 (Or.inl (List.mem_map_of_mem h))
+  · split at h
+    · cases h
+    · simp at h; subst h; simp
+
+theorem prunedBlobs_keep_used (cfg : Cfg) (name : Name) (m : Manifest) (st st2 : Store) (d : Digest)
+    (hu : DRef.ok d ∈ usedRefs (insertM name (.readable m) st2.manifests)) :
+    prunedBlobs cfg name m st st2 d = st2.blobs d := by
+  unfold prunedBlobs
+  split
+  · rfl
+  · exact removeBlobs_used _ _ d hu _
+
+/-- the manifests after a pull: the served manifest under the pulled name on success, untouched otherwise -/
+theorem pull_manifests {cfg : Cfg} {hash : Bytes → Digest} {name : Name} {reg : Registry} {sc : Scripts}
+    {st st' : Store} {o : Outcome} {log : Log} (h : pull cfg hash name reg sc st = (o, st', log)) :
+    st'.manifests = if o = .ok () then insertM name (.readable reg.manifest) st.manifests else st.manifests := by
+  rcases pull_cases h with ⟨hne, hst, _⟩ | ⟨_, s, hdl, hne, hst, _⟩ | ⟨net0, s, ov, st2, hdl, hv, _, hcase⟩
+  · subst hst; simp [hne]
+  · subst hst
+    obtain ⟨hm, _⟩ := dlLoop_preserve _ hdl
+    simp [hne, hm]
+  · obtain ⟨hm, _⟩ := dlLoop_preserve _ hdl
+    obtain ⟨vm, _⟩ := verifyPhase_any hv
+    rcases hcase with ⟨hne, ho, hst⟩ | ⟨_, ho, hman, _⟩
+    · subst hst; subst ho
+      simp [hne, vm, hm]
+    · subst ho
+      simp only [if_true]
+      rw [hman, vm, hm]
+
+/-- a successful pull keeps every blob that a manifest of ANOTHER name refers to (all variants) -/
+theorem pull_ok_keeps_named {cfg : Cfg} {hash : Bytes → Digest} {name : Name} {reg : Registry} {sc : Scripts}
+    {st st' : Store} {log : Log} (h : pull cfg hash name reg sc st = (.ok (), st', log))
+    (n : Name) (m : Manifest) (hn : n ≠ name) (hm : lookupM n st.manifests = some (.readable m))
+    (l : Layer) (hl : l ∈ m.all) (d : Digest) (c : Bytes) (hd : l.digest = .ok d) (hc : st.blobs d = some c) :
+    st'.blobs d = some c := by
+  rcases pull_cases h with ⟨hne, _⟩ | ⟨_, _, _, hne, _⟩ | ⟨net0, s, ov, st2, hdl, hv, _, hcase⟩
+  · exact absurd rfl hne
+  · exact absurd rfl hne
+  · rcases hcase with ⟨hne, ho, _⟩ | ⟨hov, _, _, hblobs⟩
+    · exact absurd ho.symm hne
+    · subst hov
+      obtain ⟨hst2, _⟩ := verifyPhase_ok hv
+      subst hst2
+      obtain ⟨hmm, hk, _, _⟩ := dlLoop_preserve _ hdl
+      rw [hblobs, prunedBlobs_keep_used]
+      · exact hk d c hc
+      · have hlook : lookupM n (insertM name (.readable reg.manifest) s.st.manifests) = some (.readable m) := by
+          rw [lookupM_insertM_other _ _ _ _ hn, hmm]; exact hm
+        have := usedRefs_mem n m _ hlook l.digest (all_digest_mem_layerRefs m l hl)
+        rw [hd] at this; exact this
+
 end OllamaVerif.Pull
